@@ -777,6 +777,15 @@ func (w *World) depWalk(v ssa.Value, stack0 []*ssa.Call, pred func(ssa.Value, []
 							return true
 						}
 					}
+					// control dependence: the conditions under which this return is taken
+					for f := range w.facts(cal).in[ret.Block()] {
+						if f.X != nil && walk(f.X, ns) {
+							return true
+						}
+						if f.Y != nil && walk(f.Y, ns) {
+							return true
+						}
+					}
 				}
 				return false
 			}
